@@ -61,6 +61,22 @@ def shares(a, b):
         return False
 
 
+def parse_event(case_id, which):
+    """the library read a document differently from the reference parser (ElementTree): nothing after that can be
+    trusted, so the case is reported as one event of kind "parse" (clause parse_faithful_ro / parse_faithful_msg)"""
+    return {"id": case_id, "obj": 0, "k": "parse", "pre": {"root": [], "kids": []}, "post": {"root": [], "kids": []},
+            "msg": project.empty_msg("none"), "status": which, "warns": [], "ser_eq": True, "intact": True, "cls": "",
+            "completed_eq": True, "acc_eq": True, "expose_intact": True, "unshared": True, "completed_acc": False}
+
+
+def same_reading(obj, text):
+    """the library's tree for `text` is what ElementTree reads from it"""
+    try:
+        return project.canon(obj.xml) == project.canon(ElementTree.fromstring(text)) and obj.xml.tag == ElementTree.fromstring(text).tag
+    except Exception:  # noqa: BLE001
+        return False
+
+
 def completed_of(ro):
     """what the accessor ro.completed reports (False when it raises: never equal to a completed document)"""
     try:
@@ -100,6 +116,8 @@ def run_case(case_id, pre_abs, msg_abs, seed, keep_xml=False):
     ro = parse_ro(ro_xml)
     completed_of(ro)            # read the flag before the merge as well: it must not be remembered
     pre_proj = project.project_ro(ro)
+    if not same_reading(ro, ro_xml):
+        return parse_event(case_id, "ro")
     if not project.bind(pre_abs, pre_proj, table):
         raise Machinery("gamma/alpha round trip failed for running order of case %s" % case_id)
     msg_root = ElementTree.fromstring(msg_xml)
@@ -116,6 +134,8 @@ def run_case(case_id, pre_abs, msg_abs, seed, keep_xml=False):
         if keep_xml:
             ev["xml"] = {"ro": ro_xml, "msg": msg_xml}
         return ev
+    if not same_reading(m, msg_xml):
+        return parse_event(case_id, "msg")
     before = str(ro)
     msg_text0 = str(m)
     res, status, warns, err = add(ro, m)
